@@ -67,7 +67,9 @@ class Prop(PropBase):
     case_timeout = 120
     rule = ('case = two generated pipelines (main 1-5 steps, other 1-3) of set / append / contextmerge / '
             'default / py / contextcopy / configvars steps with `in` containers, foreach and retry '
-            'decorators, config.vars, an initial context, optionally run through a config shortcut; '
+            'decorators, config.vars, an initial context, optionally run through a config shortcut '
+            '(args and/or parser_args), optionally with a context parser (list / keys / keyvaluepairs / '
+            'string) fed by the shortcut parser_args and/or caller args_in, and steps growing argList in place; '
             '40% avoid in-place operations on `in`-supplied values (the class that was unsafe before '
             'the repair d9572b0), 60% aim at them; empty list/dict literals as step arguments that '
             'are then grown in place are generated on purpose. Each case: load once, '
@@ -85,6 +87,9 @@ class Prop(PropBase):
         'configvars, and of Step.set/unset_step_input_context, foreach, retry; values are ints, lists, '
         'str-keyed dicts; sets (pypyr.steps.add) and foreach over a !py reference are checked by the '
         'monitors only (regression corpus), not by the model',
+        'context parsers are replicated by the harness (c12_lang.parser_ops): what they put into the context '
+        'is emitted as SetFmt/SetInt of fresh values, or InjectIn of the shortcut parser_args root when the '
+        'list parser is handed that list; strings/bools are encoded as ints in observations and model terms',
         'formatting is modelled as: containers rebuilt, {k} deep copy with the formatter memo, {k:ff} and '
         '!py k the same object (Model/Format.v / C08-C09 cover the string rules)',
         'step bodies\' own arguments (set:, append:, contextMerge:, ...) are modelled as immutable trees: '
@@ -200,6 +205,13 @@ class Prop(PropBase):
         tags.append('outcome:' + str(rs[0]['outcome']))
         if case.get('shortcut'):
             tags.append('via-shortcut')
+        if case.get('parser'):
+            tags.append('parser:' + case['parser'])
+            src = ('shortcut-parser_args' if case.get('shortcut') and case.get('sc_parser_args') else '') + \
+                  ('+args_in' if case.get('args_in') else '')
+            tags.append('parser-args-from:' + (src or 'none'))
+            if any(o[0] == 'InjectIn' and o[1] == 'argList' for o in L.pipeline_ops(case, 'main')):
+                tags.append('argList-is-the-shortcuts-list')
         if case.get('threads'):
             tags.append('threaded')
         if not L.in_model(case):
